@@ -30,6 +30,11 @@ def type_table(E):
         'JavaInt': (user('JavaInt', 'int'), ('val', 0), [9], None),
         'JavaInteger': (user('JavaInteger', 'java.lang.Integer'), ('val', None), [8], None),
         'Color': (None, ('enum', None), [], ('green', None)),
+        # literal parsed into a MUTABLE value: every instance must get its own
+        'PointList': (lambda: E.EDataType('PointList', eType=list,
+                                          from_string=lambda s: [int(x) for x in s.split(',')],
+                                          to_string=lambda v: ','.join(str(x) for x in v)),
+                      ('val', None), [], ('4,2', [4, 2])),
     }
 
 
@@ -48,6 +53,8 @@ class Case:
                 src = 'type'
             if src == 'literal' and lit is None:
                 src = 'type'
+            if tn == 'PointList':
+                src = 'literal'
             self.attrs.append({'name': f'a{i}', 'type': tn, 'source': src,
                                'explicit_index': rng.randrange(len(samples)) if samples else 0})
         self.nobj = rng.randrange(2, 4)
@@ -79,7 +86,9 @@ def build(E, cj):
         A.eStructuralFeatures.append(f)
         feats.append(f)
         # the declared default, computed from the description (not from pyecore)
-        if ad['source'] == 'literal':
+        if ad['source'] == 'literal' and ad['type'] == 'PointList':
+            dflt = ('factory', list, list(lit[1]))
+        elif ad['source'] == 'literal':
             dflt = ('val', color.getEEnumLiteral('green') if ad['type'] == 'Color' else lit[1])
         elif ad['source'] == 'explicit':
             dflt = ('val', samples[ad['explicit_index']])
@@ -134,15 +143,17 @@ def run_case(cj, model, out, stats):
         if (o, a) in spec:
             return spec[(o, a)]
         d = info[a]['default']
-        return ('container', []) if d[0] == 'factory' else ('val', d[1])
+        return ('container', list(d[2]) if len(d) > 2 else []) if d[0] == 'factory' else ('val', d[1])
 
     toks = [cj['nobj'], na]
     for a, ad in enumerate(cj['attrs']):
         d = info[a]['default']
-        lit = ad['source'] == 'literal'
+        lit = ad['source'] == 'literal' and d[0] != 'factory'
         exp = ad['source'] == 'explicit'
         tdef = type_table(E)[ad['type']][1]
-        if tdef[0] == 'factory':
+        if d[0] == 'factory':
+            tk, tv = 2, 0
+        elif tdef[0] == 'factory':
             tk, tv = 2, 0
         elif tdef[0] == 'enum':
             tk, tv = 1, intern.id(info[a]['et'].eLiterals[0])
@@ -174,7 +185,7 @@ def run_case(cj, model, out, stats):
         elif k == 'del':
             delattr(objs[o], f.name)
             d = info[a]['default']
-            spec[(o, a)] = ('container', []) if d[0] == 'factory' else ('val', d[1])
+            spec[(o, a)] = ('container', list(d[2]) if len(d) > 2 else []) if d[0] == 'factory' else ('val', d[1])
             code = [3, o, a, 0]
         elif k == 'mutate':
             cur = getattr(objs[o], f.name)
@@ -195,7 +206,9 @@ def run_case(cj, model, out, stats):
             for ai, ff in enumerate(feats):
                 isset = 1 if ob.eIsSet(ff) else 0
                 val = getattr(ob, ff.name)
-                impl_out += [isset] + view(val, intern)
+                init = info[ai]['default'][2] if len(info[ai]['default']) > 2 else []
+                mval = val[len(init):] if (init and isinstance(val, list) and val[:len(init)] == init) else val
+                impl_out += [isset] + view(mval, intern)
                 sv = spec_view(oi, ai)
                 got = ('container', list(val.values()) if isinstance(val, dict) else list(val)) \
                     if isinstance(val, (dict, list)) else ('val', val)
